@@ -111,6 +111,15 @@ pub fn draw_options(d: &Draw, allow_big_w: bool, len_hint: Option<usize>) -> Opt
         let k = d.range("swarm.opt.rot", o.opts.len() as u32) as usize;
         o.opts.rotate_left(k);
     }
+    if !o.opts.is_empty() && d.chance("swarm.opt.case", 1, 4) {
+        // option names are case-insensitive; an unknown option in between is ignored
+        for (k, _) in o.opts.iter_mut() {
+            *k = if d.chance("swarm.opt.upper", 1, 2) { k.to_uppercase() } else { let mut c = k.chars(); c.next().map(|f| f.to_uppercase().collect::<String>() + c.as_str()).unwrap_or_default() };
+        }
+        if d.chance("swarm.opt.unknown", 1, 2) {
+            o.opts.insert(d.range("swarm.opt.unknown.at", o.opts.len() as u32 + 1) as usize, ("x-vendor".into(), "pxe".into()));
+        }
+    }
     o
 }
 
@@ -290,6 +299,7 @@ pub fn xfer(prop: &'static str, tier: Tier, w: &Arc<World>) -> Scn {
     srv.single_port = d.chance("swarm.single_port", 1, 3);
     srv.v6 = d.chance("swarm.ipv6", 1, 8);
     srv.arg_rot = d.range("swarm.arg_rotation", 8) as usize;
+    srv.keep_on_error = d.chance("swarm.flag.keep_on_error", 1, 6);
     if d.chance("swarm.distinct_dirs", 1, 4) {
         // explicit send and receive directories next to a general directory that holds a decoy of the same name
         let base = sandbox.dir("base");
